@@ -20,7 +20,9 @@
 (*     atomic step in the order the steps really happened (the scheduler      *)
 (*     releases one parked thread at a time; free runs are ordered by         *)
 (*     sequence numbers taken inside the counters' critical sections),        *)
-(*     Quiesce(obs) when every call has returned, Recover twice.  Stored ids  *)
+(*     Quiesce(obs) when every call has returned, Recover twice, then Recover *)
+(*     of every neighbour tenant (Open may be followed by Calls seeding data  *)
+(*     for tenants whose ids sort next to the writers' tenant).  Stored ids   *)
 (*     are bound after every scheduled step, the usage counters whenever      *)
 (*     nothing is in flight (that is when the property defines them).         *)
 EXTENDS Persist, TraceBase
@@ -32,7 +34,6 @@ NotYet == [set |-> FALSE]
 tvars == <<wal, kv, usage, quota, pc, call, res, G, pend, stale, agreed, l, sid, used, failed>>
 
 P1 == CHOOSE p \in Procs : TRUE
-TheT == CHOOSE t \in Tenants : TRUE
 Has(f) == f \in DOMAIN Ev
 
 OpOf(c) ==
@@ -96,10 +97,14 @@ T_Recover ==
           ELSE UNCHANGED agreed
 
 \* ---- concurrent runs
-StoredOK == Has("obs") =>
-    /\ ToSet(Ev.obs.n) = DOMAIN kv'[TheT].n /\ Len(Ev.obs.n) = Cardinality(DOMAIN kv'[TheT].n)
-    /\ ToSet(Ev.obs.e) = DOMAIN kv'[TheT].e /\ Len(Ev.obs.e) = Cardinality(DOMAIN kv'[TheT].e)
-    /\ AllIdle' => UsageOK(TheT)
+\* o = [t, n, e, un, ue]: ids a scan of tenant o.t returned and its counters
+ScanOK(o) ==
+    /\ o.t \in Tenants
+    /\ ToSet(o.n) = DOMAIN kv'[o.t].n /\ Len(o.n) = Cardinality(DOMAIN kv'[o.t].n)
+    /\ ToSet(o.e) = DOMAIN kv'[o.t].e /\ Len(o.e) = Cardinality(DOMAIN kv'[o.t].e)
+CountersOK(o) == BindUsage => (o.un = usage'[o.t].n /\ o.ue = usage'[o.t].e)
+\* after a scheduled step: the stepping thread's tenant
+StoredOK == Has("obs") => (ScanOK(Ev.obs) /\ (AllIdle' => CountersOK(Ev.obs)))
 
 T_Begin == IsEv("Begin") /\ Begin(Ev.p, OpOf(Ev.call)) /\ UNCHANGED agreed /\ Same
 
@@ -117,8 +122,9 @@ T_Step ==
 \* every call has returned: stored ids, counters, and nothing of a refused creation in the log
 T_Quiesce ==
     /\ IsEv("Quiesce") /\ Quiescent /\ UNCHANGED agreed /\ Same
-    /\ StoredOK
-    /\ ToSet(Ev.obs.wal) \subseteq {<<wal[k].k, wal[k].id>> : k \in DOMAIN wal}
+    /\ {o.t : o \in ToSet(Ev.obs.per)} = {t \in Tenants : t \in ToSet(Ev.ts)}
+    /\ \A o \in ToSet(Ev.obs.per) : ScanOK(o) /\ CountersOK(o)       \* every registered tenant, neighbours included
+    /\ ToSet(Ev.obs.wal) \subseteq {<<wal[k].k, wal[k].t, wal[k].id>> : k \in DOMAIN wal}
 
 TNext == T_Fail \/ T_Reset \/ T_Open \/ T_Replica \/ T_Call \/ T_Crash \/ T_Recover \/ T_Begin \/ T_Step \/ T_Quiesce
 TSpec == TInit /\ [][TNext]_tvars
